@@ -354,7 +354,29 @@ def c01_wiring(model, rep):
     rep.attempt(relation_table_rule, model, rep, "R4")
     rep.attempt(child_current_rule, model, rep, r, "R5")
     rep.attempt(pass_wiring, model, rep, r, "R4")
+    rep.attempt(solver_loops_state, model, rep, r, "R4")
     rep.attempt(row_assembly, model, rep, r, "R6", ["Vin (V)", "Vout (V)", "Iin (A)", "Iout (A)", "Parent", "Component", "Type"])
+
+
+def solver_loops_state(model, rep, r, rule):
+    """no node of a solver pass sees what the pass computed for an unrelated node"""
+    rel = model.rel("system")
+    sol = solver_anatomy(model, r)
+    n = 0
+    for meth, pred, what, kw in ((r["FWD"], lambda l: iter_is_role(l, r["TOPO"]), "forward pass", {"parent_attr": r["PARENTS"]}),
+                                 (r["BACK"], lambda l: iter_is_role(l, r["TOPO"]), "backward pass", {"child_attr": r["CHILDS"]}),
+                                 (r["CHILD_I"], lambda l: iter_is_role(l, r["CHILDS"]), "child-current sum", {}),
+                                 (sol["init"].value.func.attr, lambda l: True, "initialiser", {})):
+        fn = model.own_method("System", meth)
+        if fn is None:
+            raise AnalysisError("System.%s not found" % meth)
+        loops = [l for l in ast.walk(fn) if isinstance(l, ast.For) and pred(l)]
+        if not loops:
+            raise AnalysisError("%s: loop not found" % meth)
+        for loop in loops:
+            iteration_state_rule(model, rep, rule, "system.System.%s" % meth, "%s:%d" % (rel, loop.lineno), loop, what, **kw)
+            n += 1
+    return n
 
 
 def pass_wiring(model, rep, r, rule):
@@ -648,7 +670,71 @@ def c04_propagation(model, rep):
 
 # ------------------------------------------------------------------------------------------------ C06 R3-R5
 def names_read(node):
-    return {n.id for n in ast.walk(node) if isinstance(n, ast.Name) and isinstance(n.ctx, ast.Load)}
+    """names loaded by an expression / statement; targets of comprehensions inside it are local to them"""
+    local = set()
+    for c in ast.walk(node):
+        if isinstance(c, (ast.ListComp, ast.SetComp, ast.DictComp, ast.GeneratorExp)):
+            for g in c.generators:
+                local |= assigned_names(g.target)
+        elif isinstance(c, ast.Lambda):
+            local |= {a.arg for a in c.args.args}
+    return {n.id for n in ast.walk(node) if isinstance(n, ast.Name) and isinstance(n.ctx, ast.Load) and n.id not in local}
+
+
+CONTAINER_MUTATORS = {"append", "extend", "insert", "remove", "pop", "clear", "update", "setdefault", "add", "discard", "sort", "reverse", "popitem"}
+
+
+def container_state(loop):
+    """containers created outside the loop body that the body both mutates (x[k] = v, x[k] += v, del x[k], x.append(..), ...)
+    and reads: {name: [(line, read expression text)]}.  Append-only lists that are never read in the body are not state."""
+    body = ast.Module(body=loop.body, type_ignores=[])
+    bound = set()
+    for s in ast.walk(body):
+        if isinstance(s, ast.Assign):
+            for t in s.targets:
+                bound |= assigned_names(t)
+        elif isinstance(s, (ast.For, ast.comprehension)):
+            bound |= assigned_names(s.target)
+        elif isinstance(s, ast.AnnAssign) and isinstance(s.target, ast.Name):
+            bound.add(s.target.id)
+    mutated = {}
+    for s in ast.walk(body):
+        tgts = []
+        if isinstance(s, ast.Assign):
+            tgts = s.targets
+        elif isinstance(s, (ast.AugAssign, ast.AnnAssign)):
+            tgts = [s.target]
+        elif isinstance(s, ast.Delete):
+            tgts = s.targets
+        for t in tgts:
+            if isinstance(t, ast.Subscript) and isinstance(t.value, ast.Name):
+                mutated.setdefault(t.value.id, s.lineno)
+        if isinstance(s, ast.Call) and isinstance(s.func, ast.Attribute) and s.func.attr in CONTAINER_MUTATORS and isinstance(s.func.value, ast.Name):
+            mutated.setdefault(s.func.value.id, s.lineno)
+    out = {}
+    parent = {}
+    for x in ast.walk(body):
+        for c in ast.iter_child_nodes(x):
+            parent[c] = x
+    for name in mutated:
+        if name in bound:
+            continue            # rebuilt inside the iteration
+        reads = []
+        for x in ast.walk(body):
+            if isinstance(x, ast.Name) and x.id == name and isinstance(x.ctx, ast.Load):
+                p = parent.get(x)
+                # the mutation itself (x[k] = .., x.append(..)) is not a read
+                if isinstance(p, ast.Subscript) and p.value is x and isinstance(p.ctx, (ast.Store, ast.Del)):
+                    continue
+                if isinstance(p, ast.Attribute) and p.value is x and p.attr in CONTAINER_MUTATORS and isinstance(parent.get(p), ast.Call) and parent[p].func is p:
+                    continue
+                top = p
+                while top in parent and not isinstance(top, ast.stmt) and not isinstance(parent.get(top), ast.stmt):
+                    top = parent[top]
+                reads.append((x.lineno, ast.unparse(p) if p is not None else name, p))
+        if reads:
+            out[name] = reads
+    return out
 
 
 def assigned_names(target, acc=None):
@@ -755,6 +841,115 @@ def loop_carried(loop):
     return carried, acc
 
 
+def const_key_stores(stmts, name):
+    """constant keys K for which `name[K] = ..` is executed on every path through stmts (inner loops may run zero times)"""
+    have = set()
+    for s in stmts:
+        if isinstance(s, ast.Assign):
+            for t in s.targets:
+                if isinstance(t, ast.Subscript) and is_name(t.value, name) and isinstance(t.slice, ast.Constant):
+                    have.add(t.slice.value)
+        elif isinstance(s, ast.If):
+            a, b = const_key_stores(s.body, name), const_key_stores(s.orelse, name)
+            t1 = bool(s.body) and isinstance(s.body[-1], (ast.Raise, ast.Return, ast.Continue, ast.Break))
+            t2 = bool(s.orelse) and isinstance(s.orelse[-1], (ast.Raise, ast.Return, ast.Continue, ast.Break))
+            have |= b if (t1 and not t2) else (a if (t2 and not t1) else (a & b))
+        elif isinstance(s, ast.With):
+            have |= const_key_stores(s.body, name)
+    return have
+
+
+def rekeyed_before_read(loop, name, read_line):
+    """every mutation of `name` in the loop is `name[<const>] = ..` and all those keys are stored, on every path, before the
+    statement at read_line: the container carries nothing over although it was created outside the loop"""
+    keys = set()
+    body = ast.Module(body=loop.body, type_ignores=[])
+    for s in ast.walk(body):
+        if isinstance(s, ast.Call) and isinstance(s.func, ast.Attribute) and s.func.attr in CONTAINER_MUTATORS and is_name(s.func.value, name):
+            return False
+        tgts = s.targets if isinstance(s, (ast.Assign, ast.Delete)) else ([s.target] if isinstance(s, (ast.AugAssign, ast.AnnAssign)) else [])
+        for t in tgts:
+            if isinstance(t, ast.Subscript) and is_name(t.value, name):
+                if not (isinstance(s, ast.Assign) and isinstance(t.slice, ast.Constant)):
+                    return False
+                keys.add(t.slice.value)
+    # statements of the loop body (top level) that complete before the reading statement starts
+    before = []
+    for s in loop.body:
+        if s.lineno <= read_line <= getattr(s, "end_lineno", s.lineno):
+            # the read is inside s: descend along the branch that holds it
+            cur = s
+            while True:
+                nxt = None
+                if isinstance(cur, ast.If):
+                    for blk in (cur.body, cur.orelse):
+                        for i, y in enumerate(blk):
+                            if y.lineno <= read_line <= getattr(y, "end_lineno", y.lineno):
+                                before = before + blk[:i]
+                                nxt = y
+                                break
+                        if nxt is not None:
+                            break
+                if nxt is None or nxt is cur:
+                    break
+                cur = nxt
+            break
+        before.append(s)
+    return keys <= const_key_stores(before, name)
+
+
+def iteration_state_rule(model, rep, rule, construct, where, loop, what, parent_attr=None, child_attr=None, allow=()):
+    """one iteration of `loop` must not depend on what an earlier iteration left behind, except through
+    (a) append-only result lists and numeric accumulators that are not read inside the loop,
+    (b) a container slot addressed by the loop variable itself (the node's own slot),
+    (c) a slot addressed through the node's parent (child) list, when the loop runs in (reverse) topological order,
+    (d) a dict whose constant keys are all stored again before it is read."""
+    carried, acc = loop_carried(loop)
+    ok = True
+    lv = loop.target.id if isinstance(loop, ast.For) and isinstance(loop.target, ast.Name) else None
+    for n, line in sorted(carried.items()):
+        # numeric accumulator / counter: only ever `x += <expr>` and never read otherwise inside the loop
+        writes = [x for x in ast.walk(loop) if isinstance(x, (ast.Assign, ast.AnnAssign)) and n in set().union(*[assigned_names(t) for t in (x.targets if isinstance(x, ast.Assign) else [x.target])])]
+        augs = [x for x in ast.walk(loop) if isinstance(x, ast.AugAssign) and is_name(x.target, n)]
+        other = [x for x in ast.walk(loop) if isinstance(x, ast.Name) and x.id == n and isinstance(x.ctx, ast.Load)]
+        if augs and not writes and not other:
+            acc.add(n)
+            continue
+        if n in allow:
+            continue
+        ok = False
+        rep.violation(rule, construct, "%s:%d" % (model.rel("system"), line),
+                      "%s: '%s' may still hold the value left by the previous iteration when it is read at line %d" % (what, n, line), "carried %s in %s" % (what, construct))
+    for name, reads in sorted(container_state(loop).items()):
+        for line, text, node in reads:
+            good = False
+            if isinstance(node, ast.Subscript) and is_name(node.value, name):
+                idx = node.slice
+                if lv and is_name(idx, lv):
+                    good = True                                   # (b) own slot
+                root = idx
+                while isinstance(root, ast.Subscript):
+                    root = root.value
+                itxt = ast.unparse(idx)
+                for attr in (parent_attr, child_attr):
+                    if attr and lv and itxt.startswith("self.%s[%s]" % (attr, lv)):
+                        good = True                               # (c) slot of a parent / child
+                    # p = self._parents[n]; x[p[0]]
+                    if attr and lv and isinstance(root, ast.Name):
+                        for s in ast.walk(loop):
+                            if isinstance(s, ast.Assign) and len(s.targets) == 1 and is_name(s.targets[0], root.id) and ast.unparse(s.value) == "self.%s[%s]" % (attr, lv):
+                                good = True
+            if not good and rekeyed_before_read(loop, name, line):
+                good = True                                       # (d)
+            if not good:
+                ok = False
+                rep.violation(rule, construct, "%s:%d" % (model.rel("system"), line),
+                              "%s: `%s` reads container '%s', which is created outside the loop and modified inside it, at a slot that is neither the current element's nor its parent's: the result depends on earlier iterations" % (what, text, name),
+                              "container state %s in %s" % (what, construct))
+    rep.instance(rule, "%s: %s carries no state between iterations" % (construct, what), where, ok, "accumulators: %s" % ", ".join(sorted(acc)))
+    return ok
+
+
 def c06_plumbing(model, rep):
     r = roles(model)
     rel = model.rel("system")
@@ -817,12 +1012,8 @@ def c06_plumbing(model, rep):
     rep.instance("R3", "system.System.%s rebuilds the phase lookup" % init_def.name, "%s:%d" % (rel, init_def.lineno), ok)
     pass_wiring(model, rep, r, "R3")
     # ---- R4 phase independence
-    carried, acc = loop_carried(ploop)
-    ok = not carried
-    for n, line in sorted(carried.items()):
-        rep.violation("R4", "system.System.solve", "%s:%d" % (rel, line), "'%s' is written in one phase iteration and may be read in the next before being rewritten" % n, "carried " + n)
-    rep.instance("R4", "system.System.solve phase loop: no loop-carried state", where, ok, "append-only accumulators: %s" % ", ".join(sorted(acc)))
-    rep.sample({"phase_loop_accumulators": sorted(acc)})
+    iteration_state_rule(model, rep, "R4", "system.System.solve", where, ploop, "phase loop")
+    iteration_state_rule(model, rep, "R4", "system.System.solve", "%s:%d" % (rel, an["row"].lineno), an["row"], "row loop", parent_attr=r["PARENTS"])
     # ---- R4b / R5 phase list and unknown phase
     phase_list_rule(model, rep, r, an)
 
